@@ -154,7 +154,11 @@ pub enum PriceErr {
 pub fn biased(view: &OracleView, bank: &Bank, ema: bool) -> Result<(Q, Q, Q), PriceErr> {
     let pp = if ema { &view.ema } else { &view.spot };
     let max_conf = &pp.price * max_conf_fraction(bank);
-    if pp.conf > max_conf {
+    // The program compares two truncated fixed-point quantities; within the truncation band
+    // around the exact threshold either verdict is legitimate, so Ref only calls a price
+    // "too wide" when it is so beyond that band (no claim inside it).
+    let band = (pp.conf_raw.abs() + pp.price.abs() + qi(4)) * ulp() * qi(4);
+    if pp.conf > &max_conf + &band {
         return Err(PriceErr::ConfidenceTooWide);
     }
     let cap = &pp.price * qr(5, 100);
